@@ -42,7 +42,7 @@ def main():
     # 2. test suite with the change
     b = os.path.join(wt, "_build")
     if not os.path.exists(os.path.join(b, "build.ninja")):
-        sh("cmake -G Ninja -S %s -B %s -DCMAKE_BUILD_TYPE=RelWithDebInfo -DBUILD_TESTING=ON" % (wt, b))
+        sh("cmake -G Ninja -S %s -B %s -DCMAKE_BUILD_TYPE=RelWithDebInfo -DBUILD_TESTING=ON -DFETCHCONTENT_SOURCE_DIR_GOOGLETEST=/usr/src/googletest" % (wt, b))
     r = sh("cmake --build %s -j8" % b)
     meta["steps"]["builds"] = r.returncode == 0
     sh("ctest --test-dir %s -j4 --timeout 900" % b)
